@@ -9,7 +9,8 @@ a = p["anchors"]
 txt = "**%s — %s**\n\nStatement: %s\n\nQuantified over: %s\n\nWhy the existing tests cannot settle it: %s\n\nWhere it lives (files): %s\n\nMechanisms it relies on:\n%s\n\nObserve at: %s\n" % (
     p["id"], p["title"], p["statement"], p["quantifier"]["text"], p["why_tests_cant"], ", ".join(a["files"]),
     "\n".join("* %s — %s" % (m["name"], m["where"]) for m in a["mechanism"]), "; ".join(a["observe_at"]))
-s = open(os.path.join(V, "tools", "seed_prompt.md")).read().replace("{WT}", wt).replace("{PROPERTY}", txt)
+tmpl = "refactor_prompt.md" if os.environ.get("SEED_KIND") == "refactor" else "seed_prompt.md"
+s = open(os.path.join(V, "tools", tmpl)).read().replace("{WT}", wt).replace("{PROPERTY}", txt)
 if hint:
     s += "\n## Additional steer for this run\n" + hint + "\n"
 print(s)
